@@ -202,21 +202,21 @@ class GMRFCovariate(GMRF):
     def _call(self, *args, **kwargs) -> torch.Tensor:
         dim = self.field.shape[-1]
         precision = self.precision.tensor
-        covariates = (
-            self.covariates.tensor
-            if self.covariates.shape[:-2] == self.beta.shape[:-1]
-            else self.covariates.tensor.expand(self.beta.shape[:-1], (-1,))
-        )
         precision_matrix = self.precision_matrix()
-        field_z_beta = self.field.tensor - (covariates @ self.beta.tensor)
+        # [..., N, P] @ [..., P, 1] -> [..., N]
+        z_beta = (self.covariates.tensor @ self.beta.tensor.unsqueeze(-1)).squeeze(-1)
+        field_z_beta = (self.field.tensor - z_beta).unsqueeze(-1)
+        quadratic_form = (
+            field_z_beta.transpose(-2, -1) @ precision_matrix @ field_z_beta
+        ).squeeze(-1)
         return (
             0.5 * (dim - 1) * precision.log()
-            - 0.5 * field_z_beta.t() @ precision_matrix @ field_z_beta
+            - 0.5 * quadratic_form
             - (dim - 1) / 2.0 * 1.8378770664093453
         )
 
     def _sample_shape(self) -> torch.Size:
-        return self.field.tensor.shape[:-1]
+        return max(super()._sample_shape(), self.beta.shape[:-1], key=len)
 
     @classmethod
     def from_json(
